@@ -116,10 +116,13 @@ class C10(core.Property):
     quick_cases = 1500
     thorough_cases = 60000
     case_timeout_s = 60
-    rule = ("family policy-exact (≈2/3): one of the five policies with parameters on the float-exact grid, ≤60 "
+    rule = ("family policy-exact (≈7/12): one of the five policies with parameters on the float-exact grid, ≤60 "
             "acquire / time_until_available / drain / feedback operations at grid times placed on, one step before and "
-            "one step after refill and window boundaries; family policy-tol (≈1/6): arbitrary decimal parameters and "
-            "nanosecond-adjacent times, compared where the exact model's margin is clear; family entity (≈1/6): "
+            "one step after refill and window boundaries; family policy-tol (≈1/4): arbitrary decimal parameters and "
+            "nanosecond-adjacent times, compared where the exact model's margin is clear; of these, ≈1/3 are 'follow' scripts: off-grid "
+            "parameters — window sizes / rates written as decimals with 1–4 fractional digits, 60 % of them chosen so that truncating and "
+            "rounding x·1e9 differ by 1 ns (1.001 s, 1.017 s, 33.3/s) — and 2–6 rounds of: take everything granted at one instant, then arrive "
+            "exactly at t + time_until_available(t) again and again (drain) or ask and try at once; family entity (≈1/6): "
             "RateLimitedEntity or NullRateLimiter inside a real Simulation, ≤25 requests, queue capacity 0–3 or large. "
             "A policy case is non-trivial when it has at least one granted and one refused acquire; an entity case "
             "when at least one request was queued or dropped; distinct = distinct case content")
@@ -167,6 +170,8 @@ class C10(core.Property):
             return self.gen_entity(rng, tier)
         if m == 4:
             return self.gen_policy_tol(rng, tier)
+        if m == 3 and (i // 6) % 2 == 0:
+            return self.gen_policy_follow(rng, tier)
         return self.gen_policy_exact(rng, tier)
 
     # --- exact grid
@@ -298,6 +303,67 @@ class C10(core.Property):
         nmax = 60 if tier == "quick" else 120
         ops = self.gen_ops(rng, spec, max(1, unit), [1, 1, 2, 1000, 999_999], nmax)
         return {"family": "policy-tol", "mode": "tol", "policy": spec, "ops": ops}
+
+    @staticmethod
+    def decimal_param(rng, bases=(0, 0, 1, 1, 2, 10), diff=None):
+        """A decimal with 1–4 fractional digits, as a user writes it (1.001, 0.35, 2.0175).  For about
+        4 % of them the nanosecond count differs between truncating and rounding x·1e9
+        (1.001 -> 1000999999 vs 1001000000), so two conversions of the same parameter inside a policy
+        can disagree by 1 ns; `diff=True` asks for one of those, `diff=False` for one of the others."""
+        for _ in range(400):
+            k = rng.randint(1, 4)
+            x = float(f"{rng.choice(bases)}.{rng.randrange(1, 10 ** k):0{k}d}")
+            if x > 0 and (diff is None or diff == (int(x * 1e9) != round(x * 1e9))):
+                return x
+        return 1.001
+
+    def gen_policy_follow(self, rng, tier):
+        """Off-grid parameters, and a caller that does what the property's second sentence describes: take
+        everything the limiter grants at one instant, then keep waiting exactly the duration
+        time_until_available returns (`drain`: arrivals at t + time_until_available(t), repeatedly) or ask
+        and try at once (`tua` + `acq`), round after round.  Compared in `tol` mode (the model follows the
+        code where they are within 1 ns); `tua-zero-but-refused`, `admitted-before-wait` and `drain-stalls`
+        relate the implementation's returned wait to its own next decision only, so they are judged on
+        its outputs as they are."""
+        k = rng.choice(["tb", "lb", "sw", "fw", "fw", "fw", "ad"])
+        diff = rng.random() < 0.6
+        if k in ("sw", "fw"):
+            spec = {"kind": k, "window": self.decimal_param(rng, diff=diff), "n": rng.choice([1, 1, 2, 3, 10])}
+            unit, burst = int(spec["window"] * NS), spec["n"] + 1
+        elif k == "tb":
+            rate = self.decimal_param(rng, diff=diff) if rng.random() < 0.5 else rng.choice([3.0, 7.0, 0.3, 33.3, 1e3 / 7])
+            cap = rng.choice([1.0, 1.0, 2.0, 3.3, 5.0])
+            spec = {"kind": "tb", "capacity": cap, "rate": rate, "init": rng.choice([None, None, 0.0, 0.7])}
+            unit, burst = int(NS / rate), int(cap) + 1
+        elif k == "lb":
+            rate = self.decimal_param(rng, diff=diff) if rng.random() < 0.5 else rng.choice([3.0, 7.0, 0.3, 33.3, 1e3 / 7])
+            spec = {"kind": "lb", "rate": rate}
+            unit, burst = int(NS / rate), 2
+        else:
+            window = rng.choice([1.0, 0.5, self.decimal_param(rng, bases=(0, 1), diff=diff)])
+            mn = max(rng.choice([1.0, 2.5, 10.0]), 1.0 / window + 0.001)
+            mx = max(mn, rng.choice([10.0, 100.0, 33.3]))
+            spec = {"kind": "ad", "initial": rng.choice([mn, mx]), "min": mn, "max": mx,
+                    "step": rng.choice([1.0, 0.1, 2.5]), "factor": rng.choice([0.5, 0.9, 0.3]), "window": window}
+            unit, burst = int(NS / spec["initial"]), int(spec["initial"] * window) + 1
+        unit = max(1, unit)
+        t = rng.choice([0, 0, unit // 2, unit, rng.randrange(0, 3 * unit + 1), 500_000_000])
+        ops = []
+        for _ in range(rng.choice([2, 3, 4, 6])):
+            for _ in range(min(burst, 12) + rng.choice([0, 0, 1])):
+                ops.append(["acq", t])
+            r = rng.random()
+            if r < 0.7:
+                ops.append(["drain", t])
+            elif r < 0.85:
+                ops += [["tua", t], ["acq", t]]
+            else:
+                ops += [["tua", t], ["drain", t]]
+            if k == "ad" and rng.random() < 0.3:
+                ops.append([rng.choice(["succ", "fail"]), t])
+            # the next round starts where the drain ended (op times are lower bounds) or later
+            t += rng.choice([0, 0, 1, unit // 3, unit - 1, unit, unit + 1])
+        return {"family": "policy-tol", "mode": "tol", "style": "follow", "policy": spec, "ops": ops[:120]}
 
     def gen_entity(self, rng, tier):
         if rng.random() < 0.06:
